@@ -267,7 +267,7 @@ def builtin_obligations(world: World, res: Result, tier: str, only_builtin=None)
     except Unsupported as e:
         res.add(Obligation("builtin/*", "undecided", str(e)))
         return
-    sems = SEMANTICS if tier == "thorough" else ["B", "E"]
+    sems = SEMANTICS
     for name, (kinds, spec) in SB.SPEC.items():
         if only_builtin and only_builtin != name:
             continue
@@ -412,7 +412,7 @@ def run(tier: str, seed: int, only=None) -> Result:
         "hashing, signature and BLS builtins: digest/curve arithmetic is not encoded (outside the claim)",
     ]
     res.bounds = {"integers": "unbounded (z3 Int)", "byte strings": "unbounded symbolic length for sequence-level arms",
-                  "lists": "length 0..2 (quick) / 0..3 (thorough), symbolic elements", "semantics": "B,E (quick) / A-E (thorough)"}
+                  "lists": "length 0..2 (quick) / 0..3 (thorough), symbolic elements", "semantics": "A-E"}
     res.extra["explanation"] = ("one arm of DefaultFunction::call per obligation, executed symbolically from MIR on symbolic arguments; "
                                 "z3 decides equality with the Plutus builtin specification (specs/builtins.py) on all return paths, "
                                 "failure-iff-specified-failure, absence of panic paths, and rejection of ill-typed arguments")
